@@ -124,7 +124,7 @@ def backward_once(family, n, count=True):
     gc.disable()                                    # the collector's cost depends on heap size, not on backward: paused while timing
     if count:
         BackwardFunction.__call__ = counted
-    t0 = time.perf_counter()
+    t0 = time.process_time()                       # CPU time of this process: insensitive to other load on the machine
     try:
         root.backward(seedgrad)
         res["completed"] = True
@@ -133,7 +133,7 @@ def backward_once(family, n, count=True):
             raise
         res.update(completed=False, exception=type(e).__name__, message=str(e)[:200])
     finally:
-        res["seconds"] = time.perf_counter() - t0
+        res["seconds"] = time.process_time() - t0
         BackwardFunction.__call__ = orig
         gc.enable()
     if res["completed"]:
@@ -164,7 +164,7 @@ def job_graph(spec):
         _phase("timing")
         tn, t2n = [], []
         big = backward_once(family, 2 * n)          # the doubled graph is itself a contract evaluation (counted)
-        for _ in range(spec.get("repeats", 2) if big["completed"] else 0):
+        for _ in range(spec.get("repeats", 3) if big["completed"] else 0):
             tn.append(backward_once(family, n, count=False)["seconds"])
             t2n.append(backward_once(family, 2 * n, count=False)["seconds"])
         res["double"] = big
